@@ -83,13 +83,13 @@ class World:
     """
 
     def __init__(self, loop: VirtualLoop, n: int, flags: Any = None, auto: bool = True, hidden: bool = False,
-                 tunnel_endpoint_at: tuple = (), **settings: Any) -> None:
+                 tunnel_endpoint_at: tuple = (), dispatcher: str | None = None, **settings: Any) -> None:
         self.loop = loop
         self.net = SimNet(loop, auto=auto)
         self.trace = KeyTrace()
         self.trace.install()
         self.nodes = nodes_mod.tunnel_nodes(self.net, n, flags=flags, hidden=hidden,
-                                            tunnel_endpoint_at=tunnel_endpoint_at, **settings)
+                                            tunnel_endpoint_at=tunnel_endpoint_at, dispatcher=dispatcher, **settings)
         self.prefix = self.nodes[0].overlay.get_prefix()
         self.by_key = {nd.key.pub().key_to_bin(): nd for nd in self.nodes}
         self.by_addr = {nd.address: nd for nd in self.nodes}
